@@ -51,7 +51,7 @@ def plan(tier, seed):
         n = sum(shape)
         for fail in [None] + list(range(n)):
             cases.append(dict(key=f"job/shape={shape}/fail={fail}", kind="job", shape=list(shape), fail=fail, seed=seed, cost=6))
-    cases.append(dict(key="save", kind="save", seed=seed))
+    cases.append(dict(key="save", kind="save", seed=seed, tier=tier, cost=10))
     return cases
 
 
@@ -320,5 +320,56 @@ def run(case):
                 if not np.array_equal(field[0].values, u):
                     c.bad(sub + "/mutated", "save changed the field", "changed", "unchanged")
                 os.remove(fn)
-        return c.result(dict(case=case["key"]))
+        # call histories: every sequence (depth 2, quick; 3, thorough) over {forces, forces+gradient, own point data, nothing} x
+        # two meshes of different size: every file must hold exactly the arrays THAT call was given
+        setups = {}
+        for tag, fam in (("A", "hexahedron"), ("B", "tetra")):
+            mesh = zoo.make(fam, "renum", seed)
+            region = zoo.region(fam, mesh)
+            u = 0.05 * zoo.offarr(seed, 1300, mesh.points.shape)
+            field = fem.FieldContainer([fem.Field(region, dim=3, values=u.copy())])
+            body = fem.SolidBody(fem.NeoHooke(mu=1.0, bulk=2.0), field)
+            forces = body.assemble.vector(field).toarray()[:, 0]
+            setups[tag] = (mesh, region, field, u, forces, body.results.stress)
+        variants = ["none", "forces", "forces+gradient", "point_data"]
+        alphabet = [(t, v) for t in setups for v in variants]
+        depth = 3 if case.get("tier") == "thorough" else 2
+        for seq in itertools.product(range(len(alphabet)), repeat=depth):
+            for step, k in enumerate(seq):
+                tag, var = alphabet[k]
+                mesh, region, field, u, forces, stress = setups[tag]
+                fn = "save_hist.vtu"
+                kw = {}
+                expect = {"Displacements"}
+                if var.startswith("forces"):
+                    kw["forces"] = forces
+                    expect.add("Reaction Force")
+                if var.endswith("gradient"):
+                    kw["gradient"] = stress
+                    expect |= {"Cauchy Stress", "Cauchy Stress (Max. Principal)", "Cauchy Stress (Int. Principal)", "Cauchy Stress (Min. Principal)", "Cauchy Stress (Max. Principal Shear)"}
+                if var == "point_data":
+                    kw["point_data"] = {"Mine": np.arange(mesh.npoints, dtype=float)}
+                    expect.add("Mine")
+                lab = "save-history=" + " > ".join(f"{alphabet[i][0]}:{alphabet[i][1]}" for i in seq[: step + 1])
+                try:
+                    fem.tools.save(region, field, filename=fn, **kw)
+                    m = meshio.read(fn)
+                except Exception as ex:  # noqa
+                    c.bad(lab + "/exception", "save / read raised after this call history", repr(ex)[:160], "a readable file")
+                    break
+                c.trans += 1
+                names = set(m.point_data.keys())
+                if step == len(seq) - 1:
+                    c.traces += 1
+                    if names != expect:
+                        c.bad(lab + "/arrays", "point data arrays of the file vs the arrays this call was given", sorted(names), sorted(expect))
+                    c.same(lab + "/Displacements", "saved displacements", m.point_data["Displacements"], u)
+                    if "forces" in kw:
+                        c.same(lab + "/Reaction Force", "saved reaction forces", m.point_data["Reaction Force"], forces.reshape(-1, 3))
+                    if "point_data" in kw and "Mine" in m.point_data and not np.array_equal(kw["point_data"]["Mine"], np.arange(mesh.npoints, dtype=float)):
+                        c.bad(lab + "/own-dict", "the caller's point_data dict content was modified", "modified", "unchanged")
+                    c.nontrivial.append(lab)
+                if os.path.exists(fn):
+                    os.remove(fn)
+        return c.result(dict(case=case["key"], save_histories=len(alphabet) ** depth))
     raise ValueError(kind)
